@@ -92,6 +92,8 @@ def run_case(case, ctx):
     if W is None and exact:
         minimal = rc if kind == "minimal" else ref.minimal_form(rc)
     cleaned_once = False
+    if len(case["history"]) % 2 == 0:
+        cv.bystander(ctx, curve)  # shares the refined curve's KnotVector object from here on
     for name in case["order"]:
         pre = lib.curve_digest(curve)
         o = call(getattr(curve, name))
